@@ -315,6 +315,10 @@ def finish(
             new.append(v)
     for (sub, key), (k, v) in sorted(listed.items()):
         print(f"KNOWN-FINDING: property={prop} {sub} {key}: {k.get('what', v['observed'])} [{listed_n[(sub, key)]} case(s) this run]")
+        if "expect_count" in k and listed_n[(sub, key)] != k["expect_count"]:
+            # the listed class is a fully enumerated, tier-independent family: its failing set must not change
+            new.append({"sub": sub + "/known_class_changed", "key": key, "observed": f"{listed_n[(sub, key)]} failing cases", "expected": f"{k['expect_count']} (as recorded for the unchanged tree)",
+                        "case": {"note": "the number of failing members of a listed class changed"}, "subcheck": sub.split("/")[0]})
 
     # deterministic order, write replays for the first few new violations
     new.sort(key=lambda v: (v["sub"], v["key"]))
